@@ -28,33 +28,46 @@ TAKEN = {
  "C09": ["NV relocation does not update the handle", "_has_virtual_address truthiness (physical qubit 0)", "non-sequential keep takes consecutive IDs from the first hole",
          "measure() deactivates the handle before building commands",
          "pop(0) of the pending response list", "min-fidelity retry clean-up frees IDs 0..n-1", "NV just-initialised shortcut fires for another qubit",
-         "pairs_left decremented in _extract_epr_info", "register measurement (store_array=False) omits the qfree"],
+         "pairs_left decremented in _extract_epr_info", "register measurement (store_array=False) omits the qfree",
+         "ID search starts at the number of live handles", "NV receive: correction on ID 0 after the pair was moved to memory"],
  "C10": ["NV move-to-memory corrects the wrong qubit", "recv_rsp_with_info drops expect_phi_plus", "correction block applied once after the loop",
          "measure-directly post-processing reads pair 0's Bell state for every pair",
          "PSI_MINUS flip list wrong for MX/MY", "no wait/correction for a sequential single pair", "qlink-1.0 measure response loses its Bell state",
-         "double correction with a non-sequential post routine", "the creator corrects too on single-comm-qubit hardware"],
+         "double correction with a non-sequential post routine", "the creator corrects too on single-comm-qubit hardware",
+         "non-sequential post routine never corrected", "MY / MZ rotations looked up as each other"],
  "C11": ["remote rotations dropped when the local ones are zero", "pop(0) of the pending response list", "qlink-1.0 conversion copies a local angle into a remote field",
          "recv_measure passes the remote socket id", "deferred keep response still consumes a pair slot",
-         "create-request defaults are one shared dict", "request booked before put() with no rollback when put() raises"],
+         "create-request defaults are one shared dict", "request booked before put() with no rollback when put() raises",
+         "create request booked under the socket id instead of the purpose id"],
  "C12": ["pop(0) of the pending response list", "pairs_left decremented before the handler", "directionality flag lost for measure responses",
          "_has_virtual_address truthiness", "wait_all resumes when any entry is defined", "pending-response loop keeps iterating after a handled response",
-         "receive requests filed under the socket id instead of the purpose id", "retiring a request drops the socket's whole request list"],
+         "receive requests filed under the socket id instead of the purpose id", "retiring a request drops the socket's whole request list",
+         "busy check looks at the unit module of app id = subroutine id", "pair index = sequence number mod pairs"],
  "C13": ["stop removes the virtual instead of the physical address", "subroutine ids reused while in flight", "qfree removes the virtual address from the used set",
          "keep response marks the physical qubit before the busy check",
          "Arrays() shares a mutable default dict", "physical qubit marked used before the checks of qalloc",
-         "load writes the register of the app whose id equals the subroutine id"],
+         "load writes the register of the app whose id equals the subroutine id",
+         "unused physical qubit = size of the used set"],
  "C14": ["empty-body loop keeps its register", "condition temporary released too early", "a finished EPR receive keeps one register", "loop_until counter released too early",
          "M registers only reclaimed if listed for return", "add(<register>) releases the register of the caller", "index temporary of a future-indexed element never released",
          "array-initialisation loop register never released", "RegFuture.add leaks its temporary"],
  "C18": ["disconnect pops the peer's receive callback", "connect clears the inbox after the socket is visible", "recv pops from a snapshot and writes it back",
          "disconnect removes the wrong key from the remote set",
          "connect records itself as remote only if the peer is not open", "recv_structured ignores block=False", "broadcast recv pops every pending socket and returns the last",
-         "remote marker published before the open entry", "broadcast sweep stops at the first empty socket"],
+         "remote marker published before the open entry", "broadcast sweep stops at the first empty socket",
+         "_wait_for_remote looks only at the remote-marker set", "recv checks the deadline between taking the message and returning it"],
  "C20": ["parity_meas flips back by the first qubit's basis", "negative angles folded with fmod", "parity_meas keeps its ancilla",
          "toffoli: last T-dagger and CNOT swapped", "trivial Pauli string returns before the sign flip", "single-qubit parity outcome kept in a register",
          "array addresses restart after every flush (memmgr)", "qfree releases the wrong physical-qubit number (executor)"],
 }
 
+timing = ""
+if len(sys.argv) > 4 and sys.argv[4] == "timing":
+    timing = ("FOR THIS ROUND prefer changes whose manifestation depends on TIMING rather than on a particular input value: a particular "
+              "interleaving of concurrent parties (threads, applications on one controller, host versus controller, controller versus link "
+              "layer), the arrival order or delay of messages and link-layer responses, a fault at a particular point (a refused request, "
+              "a time-out, an error response, an exception half-way through an operation), a stop / restart / re-connection at a "
+              "particular moment. The demonstration should then construct that interleaving or fault deterministically.\n\n")
 taken = "".join(f"\n  - {t}" for t in TAKEN.get(pid, []))
 print(f"""You are helping test a verification effort for the open-source Python project QuTech-Delft/netqasm (a quantum-network instruction set: SDK that builds IR, assembler/encoder, NV transpiler, base executor/interpreter).
 
@@ -69,7 +82,7 @@ CODE IT IS ANCHORED IN: {', '.join(p['anchors']['files'])}
 
 YOUR TASK: produce {n} DIFFERENT, independent source changes to the netqasm package (under {wt}/netqasm/) each of which BREAKS this property, while the code still imports and the existing test suite still passes (171 passed, same as before). Each change should be the kind of realistic slip a developer could make (an off-by-one, a wrong index or key, a missing release/cleanup, a reordered pair of statements, a condition that is wrong only for some inputs, two sites that each look fine alone) and must need SOMETHING SPECIFIC to manifest: a particular interleaving or arrival order, a multi-step sequence of operations, an unusual input or configuration, a fault at a particular point -- NOT something that ordinary single-shot use would expose at once, and not something that breaks on every input.
 
-Earlier reviewers already proposed the following changes for this property; propose changes that are DIFFERENT in kind and, where the anchored code allows, in a different function or file from these (look at parts of the statement and of the anchored files these do not touch):{taken}
+{timing}Earlier reviewers already proposed the following changes for this property; propose changes that are DIFFERENT in kind and, where the anchored code allows, in a different function or file from these (look at parts of the statement and of the anchored files these do not touch):{taken}
 
 For EACH change i (1..{n}) deliver, in the worktree root:
   - {wt}/change_i.diff : a unified diff (`git -C {wt} diff > change_i.diff` taken with ONLY that change applied; then `git -C {wt} checkout -- netqasm` before starting the next change so that the changes are independent),
